@@ -211,9 +211,13 @@ impl Fam {
                     }
                 }
                 let mut var = var;
-                var.bonus = false;
                 if var.dom != Dom::Off { var.dom = Dom::Coord; }
-                Tm::new(*n, s, 2, tr, 0, var, name).with_mode(MergeMode::MaxIdx).with_root(cap)
+                // the `bonus` flag of the variant selects the merge operator for knapsack: larger capacity, or one MORE than
+                // the largest merged capacity (still a valid relaxation; its result can coincide with a kept node => recycling)
+                let mode = if var.bonus { MergeMode::MaxIdxUp } else { MergeMode::MaxIdx };
+                let mut var = var;
+                var.bonus = false;
+                Tm::new(*n, s, 2, tr, 0, var, name).with_mode(mode).with_root(cap)
             }
             Fam::Sp { .. } => panic!("not a table model"),
         }
